@@ -38,6 +38,18 @@ CHECKS = {
     "C16": ("model_checking", "Polygon.tla exhaustive classification (TLC, two independent rays) + replay of point_polygon_check on all rotations/orientations",
             "Exhaustive over all simple polygons with 3..5 (thorough: 6) vertices on the 4x4 lattice and all 49 half-lattice points: the crossing-number classification of the model (guarded by an independent vertical-ray classification) is compared with the real function for every vertex rotation and both orientations.",
             "random real-valued polygons are judged only outside the tolerance band", "5/C16"),
+    "C13": ("model_checking", "Manager.tla / GheObject.tla history generation (TLC) + execution of every history on the real classes with bit-for-bit comparison",
+            "Object identity, snapshot capture at set_design and the cells that survive between simulate/size calls are modelled as state; TLC generates API histories (exhaustively at object level, by simulation at manager level) and every history is executed on the real code; results must be bit-identical inside each class of equal physical snapshot and equal to a fresh object's.",
+            "manager histories are TLC-simulated (random) rather than exhaustive; tiny configurations (4-20 boreholes, 12 months)", "5/C13"),
+    "C17": ("model_checking", "InputFile.tla over the configuration product with schema facts regenerated from the repository (TLC) + write/validate/load/write replay",
+            "WrittenIsValid, RoundTrip and WriteIsIdempotent are checked by TLC for all 1680 configurations against the repository's own schema requirements; every configuration (quick: a covering sample) is executed through the real setters, writer, validator and command-line loader and the two files compared byte for byte.",
+            "numeric values are random in range per seed; schema facts used by the model: required keys and enumerations", "5/C17"),
+    "C18": ("model_checking", "Cli.tla decision machine (TLC) + subprocess runs of the real entry point + schema-conjunction oracle for every single-field corruption",
+            "The command's decision tree is a 6-input machine whose exit status and outputs are invariants; each distinguishable case is run as a subprocess, and the validator's verdict is compared with an independent jsonschema evaluation for every corruption the schemas admit.",
+            "python -m ghedesigner.manager is taken as the console script; corruption base is one near-square single-U file", "5/C18"),
+    "C19": ("model_checking", "Calendar.tla exhaustive (TLC) + replay of the real static methods + output-table trace of real designs",
+            "Time labels are proved equal to the reference calendar for all 8760 hours and hours_to_month exact / monotone / continuous on a quarter-hour grid (3 years quick, 30 years thorough); the real functions are replayed on the same domains; real design outputs are compared with inputs, selected field and simulated curve.",
+            "table clauses are judged on a few real designs (2 quick, 9 thorough)", "5/C19"),
 }
 
 NOT_APPLICABLE = [
